@@ -28,6 +28,7 @@ import (
 	"strings"
 	"sync"
 	"sync/atomic"
+	"syscall"
 	"time"
 
 	"qchen.fun/fatchoy"
@@ -42,7 +43,7 @@ import (
 
 type PktSpec struct{ ID, Size int }
 
-type InItem struct{ Kind, ID, Size int } // Kind 0 frame, 1 garbage (bad checksum), 2 EOF, 3 RST, 4 truncated frame then FIN, 5 header with an over-limit length
+type InItem struct{ Kind, ID, Size int } // Kind 0 frame, 1 garbage (bad checksum), 2 EOF, 3 RST, 4 truncated frame then FIN, 5 header with an over-limit length, 6 a frame written in two halves with a pause longer than the read time-out in between (the second half begins with a complete, valid frame)
 
 type Dir struct{ Op, A, B int }
 
@@ -125,26 +126,30 @@ var pointCodes = map[string]int{
 }
 
 type Cfg struct {
-	Mode       int // 0 free, 1 gated
-	Codec      int // 1 | 2
-	Cipher     bool
-	Ocap       int
-	Icap       int
-	Ecap       int // < 0: nil error channel
-	HasWriter  bool
-	HasReader  bool
-	Senders    [][]PktSpec
-	Closers    []bool // true: Close(), false: ForceClose(err)
-	Input      []InItem
-	PeerRead   int // free mode: 0 prompt, 1 slow, 2 only after the close began
-	InConsumer int // 0 nobody drains inbound, 1 drained (free: goroutine; gated: finishing policy / script)
-	Seed       uint64
-	Script     []Dir
-	CloseAfter int // free mode: 0 close when all senders returned; 1 close concurrently with senders
-	LateSend   int // after everything: number of extra SendPacket calls expected to be refused
-	FailAfter  int // >= 0: the connection's socket is wrapped; every Write after the first FailAfter ones fails (-1: plain TCP conn)
-	Immediate  int // free mode: Go(); SendPacket x N; Close() back to back on one goroutine, no settling, no perturbation
-	MaxProcs   int // free mode: run the scenario with GOMAXPROCS set to this (0: leave)
+	Mode        int // 0 free, 1 gated
+	Codec       int // 1 | 2
+	Cipher      bool
+	Ocap        int
+	Icap        int
+	Ecap        int // < 0: nil error channel
+	HasWriter   bool
+	HasReader   bool
+	Senders     [][]PktSpec
+	Closers     []bool // true: Close(), false: ForceClose(err)
+	Input       []InItem
+	PeerRead    int // free mode: 0 prompt, 1 slow, 2 only after the close began, 3 very slow (4 KiB per ms)
+	InConsumer  int // 0 nobody drains inbound, 1 drained (free: goroutine; gated: finishing policy / script)
+	Seed        uint64
+	Script      []Dir
+	CloseAfter  int // free mode: 0 close when all senders returned; 1 close concurrently with senders
+	LateSend    int // after everything: number of extra SendPacket calls expected to be refused
+	FailAfter   int // >= 0: the connection's socket is wrapped; every Write after the first FailAfter ones fails (-1: plain TCP conn)
+	Immediate   int // free mode: Go(); SendPacket x N; Close() back to back on one goroutine, no settling, no perturbation
+	MaxProcs    int // free mode: run the scenario with GOMAXPROCS set to this (0: leave)
+	ReadTimeout int // seconds for qnet.TConnReadTimeout during the scenario (0: 60)
+	LateInput   int // free mode: the last LateInput items of Input are written only after the close began
+	WaitInput   int // free mode: the closers start only after the peer has written all of its input (the peer is silent while we close)
+	SmallBuf    int // 64 KiB socket buffers on both ends (a backlog stays in the kernel send queue)
 }
 
 func (c Cfg) Sx() Sx {
@@ -171,7 +176,7 @@ func (c Cfg) Sx() Sx {
 	return List(Int(int64(c.Mode)), Int(int64(c.Codec)), Bool(c.Cipher), Int(int64(c.Ocap)), Int(int64(c.Icap)),
 		Int(int64(c.Ecap)), Bool(c.HasWriter), Bool(c.HasReader), ListOf(snd), ListOf(cls), ListOf(in),
 		Int(int64(c.PeerRead)), Int(int64(c.InConsumer)), Uint(c.Seed), ListOf(sc), Int(int64(c.CloseAfter)),
-		Int(int64(c.LateSend)), Ints(int64(c.FailAfter), int64(c.Immediate), int64(c.MaxProcs)))
+		Int(int64(c.LateSend)), Ints(int64(c.FailAfter), int64(c.Immediate), int64(c.MaxProcs), int64(c.ReadTimeout), int64(c.LateInput), int64(c.WaitInput), int64(c.SmallBuf)))
 }
 
 func CfgOfSx(s Sx) Cfg {
@@ -201,6 +206,12 @@ func CfgOfSx(s Sx) Cfg {
 	if s.Len() > 17 {
 		x := s.At(17)
 		c.FailAfter, c.Immediate, c.MaxProcs = x.At(0).AsInt(), x.At(1).AsInt(), x.At(2).AsInt()
+		if x.Len() > 4 {
+			c.ReadTimeout, c.LateInput = x.At(3).AsInt(), x.At(4).AsInt()
+		}
+		if x.Len() > 6 {
+			c.WaitInput, c.SmallBuf = x.At(5).AsInt(), x.At(6).AsInt()
+		}
 	}
 	return c
 }
@@ -322,6 +333,7 @@ type Sim struct {
 	peerMu    sync.Mutex
 	peerEOF   atomic.Bool
 	peerErr   atomic.Bool
+	peerReset atomic.Bool
 	peerDone  chan struct{}
 	peerStart chan struct{} // closed when the peer may start reading (late mode)
 
@@ -347,6 +359,7 @@ type Sim struct {
 	waited        bool           // finally() got past wg.Wait()
 	pumpAfterWait int            // pump events after that
 	noFin         int            // Terminated, no goroutine left, and the peer never saw end-of-stream
+	wakeSince     time.Time      // when the reader last got a reason to wake (input written / read side shut down)
 	desync        int            // gated: arrivals that the serialization protocol cannot explain
 	rng           *Rng
 }
@@ -437,6 +450,7 @@ func (sim *Sim) point(code, arg int) {
 	}
 	if code == PCloseReadClosed || code == PFcloseReadClosed {
 		sim.rdClosed.Store(true)
+		sim.wakeSince = time.Now()
 	}
 	if code == PCloseCas || code == PFcloseCas {
 		sim.closeBegan.Store(true)
@@ -600,7 +614,12 @@ func (sim *Sim) quiet() (bool, string) {
 		if g.status == "IO wait" {
 			if strings.Contains(g.text, "(*TcpConn).readPump") {
 				if atomic.LoadInt32(&sim.inputWritten) > atomic.LoadInt32(&sim.inputConsumed) || sim.rdClosed.Load() {
-					return false, "reader about to wake"
+					// the kernel will wake it (data / EOF pending): wait for that, but not for ever — after
+					// 2 s in the network wait it counts as parked (its step stays enabled in the model, so
+					// the replay is unaffected; a Close waiting for it is then reported as stuck)
+					if time.Since(sim.wakeSince) < 2*time.Second {
+						return false, "reader about to wake"
+					}
 				}
 				parked[g.gid] = true
 				continue
@@ -748,8 +767,12 @@ func (sim *Sim) peerReader(slowUs int) {
 	defer close(sim.peerDone)
 	<-sim.peerStart
 	buf := make([]byte, 32*1024)
+	if sim.cfg.PeerRead == 3 { // very slow reader: 4 KiB per millisecond
+		buf = buf[:4096]
+		slowUs = 1000
+	}
 	for {
-		sim.peer.SetReadDeadline(time.Now().Add(20 * time.Second))
+		sim.peer.SetReadDeadline(time.Now().Add(dl(20 * time.Second)))
 		n, err := sim.peer.Read(buf)
 		if n > 0 {
 			sim.peerMu.Lock()
@@ -761,6 +784,9 @@ func (sim *Sim) peerReader(slowUs int) {
 				sim.peerEOF.Store(true)
 			} else {
 				sim.peerErr.Store(true)
+				if errors.Is(err, syscall.ECONNRESET) {
+					sim.peerReset.Store(true) // the connection answered with RST instead of FIN
+				}
 			}
 			return
 		}
@@ -797,6 +823,18 @@ func (sim *Sim) peerWriteItem(idx int, enc codec.Encoder) bool {
 		f := encodeFrame(enc, false, PktSpec{it.ID, it.Size + 8})
 		sim.peer.Write(f[:len(f)-3])
 		sim.peer.CloseWrite()
+	case 6:
+		// outer frame: header announcing a body of junk(8) + an embedded valid frame + 6 more bytes
+		g := encodeFrame(enc, sim.cfg.Cipher, PktSpec{it.ID + 100000, it.Size})
+		outer := encodeFrame(enc, false, PktSpec{it.ID, 8 + len(g) + 6})
+		hdr := len(outer) - (8 + len(g) + 6)
+		sim.peer.Write(outer[:hdr+8]) // header + the first 8 body bytes, then silence
+		to := sim.cfg.ReadTimeout
+		if to <= 0 {
+			to = 60
+		}
+		time.Sleep(time.Duration(to)*time.Second + 400*time.Millisecond)
+		sim.peer.Write(g)
 	case 5:
 		f := encodeFrame(enc, false, PktSpec{it.ID, it.Size})
 		if sim.cfg.Codec == 2 {
@@ -809,6 +847,9 @@ func (sim *Sim) peerWriteItem(idx int, enc codec.Encoder) bool {
 		sim.peer.SetLinger(0)
 		sim.peer.Close()
 	}
+	sim.mu.Lock()
+	sim.wakeSince = time.Now()
+	sim.mu.Unlock()
 	atomic.AddInt32(&sim.inputWritten, 1)
 	return true
 }
@@ -962,6 +1003,10 @@ func run(cfg Cfg) (Sx, *Sim) {
 	if cfg.Ecap >= 0 {
 		sim.errch = make(chan error, cfg.Ecap)
 	}
+	if cfg.SmallBuf == 1 {
+		srv.SetWriteBuffer(64 * 1024)
+		sim.peer.SetReadBuffer(64 * 1024)
+	}
 	var sock net.Conn = srv
 	if cfg.FailAfter >= 0 {
 		sock = &failConn{Conn: srv, ok: int32(cfg.FailAfter)}
@@ -972,6 +1017,9 @@ func run(cfg Cfg) (Sx, *Sim) {
 	}
 	oldTimeout := qnet.TConnReadTimeout
 	qnet.TConnReadTimeout = 60
+	if cfg.ReadTimeout > 0 {
+		qnet.TConnReadTimeout = cfg.ReadTimeout
+	}
 	defer func() { qnet.TConnReadTimeout = oldTimeout }()
 
 	sim.peerDone = make(chan struct{})
@@ -989,7 +1037,10 @@ func run(cfg Cfg) (Sx, *Sim) {
 	// wait for the peer to see the end of the stream (bounded).  A time-out is inconclusive,
 	// unless nothing is left that could still send the FIN: the connection is Terminated and
 	// none of its goroutines is alive (then the write side was never shut down).
-	deadline := time.Now().Add(4 * time.Second)
+	deadline := time.Now().Add(dl(4 * time.Second))
+	if sim.stuck == 1 {
+		deadline = time.Now().Add(500 * time.Millisecond)
+	}
 	seen := 0
 waitEOF:
 	for {
@@ -1012,7 +1063,9 @@ waitEOF:
 			seen = 0
 		}
 		if time.Now().After(deadline) {
-			sim.inconclusive("peer did not observe end-of-stream within 4s")
+			if sim.stuck == 0 {
+				sim.inconclusive("peer did not observe end-of-stream within 4s")
+			}
 			sim.peer.SetReadDeadline(time.Now())
 			<-sim.peerDone
 			break waitEOF
@@ -1113,7 +1166,7 @@ func (sim *Sim) observed(enc codec.Encoder, oracle, inOracle []Sx) Sx {
 		ListOf(evs),      // 2 events in arrival order
 		ListOf(res),      // 3 per-sender results
 		ListOf(wire),     // 4 what the peer received (id n bodyok)
-		Ints(int64(garbage), b2i(sim.peerEOF.Load()), b2i(sim.peerErr.Load()), int64(sim.noFin)), // 5
+		Ints(int64(garbage), b2i(sim.peerEOF.Load()), b2i(sim.peerErr.Load()), int64(sim.noFin), b2i(sim.peerReset.Load())), // 5
 		counters,       // 6
 		Ints(deliv...), // 7
 		Ints(int64(sim.badEndpoint), int64(sim.foreignIn)), // 8
